@@ -89,6 +89,44 @@ pub fn run_functions(g: &GS, names: &[String], weighted: bool, pick: usize) -> V
 
 fn c07_case(rng: &mut Rng, thorough: bool, small: bool) -> GCase {
     let specs = Specs::kind(rng.coin(), rng.chance(1, 4), rng.chance(1, 4));
+    if !small && rng.chance(1, 4) {
+        // shapes on thresholds: a hub with exactly 63/64/65 successors, node counts around 256,
+        // or barely above the 20-node parallel threshold (fewer nodes than worker threads)
+        let wclass = *rng.pick(&[WClass::Generic, WClass::Unweighted]);
+        return match rng.below(3) {
+            0 => {
+                let deg = *rng.pick(&[63usize, 64, 65]);
+                let n = deg + 1 + rng.below(6);
+                let names = scrambled_names(n, rng);
+                let hub = rng.below(n);
+                let mut edges = vec![];
+                let mut k = 0;
+                for v in 0..n {
+                    if v != hub && k < deg {
+                        edges.push((hub, v, wclass.draw(rng)));
+                        k += 1;
+                    }
+                }
+                for _ in 0..20 {
+                    let (a, b) = (rng.below(n), rng.below(n));
+                    if a != b && a != hub && !edges.iter().any(|e| (e.0 == a && e.1 == b) || (e.0 == b && e.1 == a)) {
+                        edges.push((a, b, wclass.draw(rng)));
+                    }
+                }
+                rng.shuffle(&mut edges);
+                GCase { specs: Specs::kind(specs.directed, false, false), names, edges, family: "hub-with-64-successors", wclass }
+            }
+            1 => {
+                let n = *rng.pick(&[255usize, 256, 257, 258, 300]);
+                let fam: &'static str = *rng.pick(&["gnp_sparse", "tree", "components"]);
+                gen_case(specs, fam, n, wclass, &GenOpts { self_loops: false, parallel: false, shuffle_edges: true }, rng)
+            }
+            _ => {
+                let n = rng.range(21, 24);
+                gen_case(specs, "gnp_mid", n, wclass, &GenOpts { self_loops: true, parallel: true, shuffle_edges: true }, rng)
+            }
+        };
+    }
     let n = if small { rng.range(21, 30) } else { rng.range(21, if thorough { 150 } else { 80 }) };
     let fam: &'static str = *rng.pick(&["gnp_sparse", "gnp_sparse", "gnp_mid", "grid", "tree", "components", "nested_scc", "ladder", "barbell"]);
     let fam = if n > 60 && (fam == "gnp_mid" || fam == "grid" || fam == "barbell" || fam == "ladder") { "gnp_sparse" } else { fam };
@@ -113,8 +151,9 @@ fn schedule_signatures(log: &[hooks::ParEvent]) -> (u64, u64, usize) {
 
 pub fn run_c07(a: &Args) {
     let light = a.extra.iter().any(|e| e == "light");
-    let total: u64 = if light { 4 } else if a.thorough { 48 } else { 16 };
-    let pool_sizes: Vec<usize> = if a.thorough && !light { (1..=16).collect() } else { vec![2, 3, 4, 8, 16] };
+    let total: u64 = if light { 4 } else if a.thorough { 64 } else { 32 };
+    // 32 and 48 workers: more threads than some of the graphs have nodes
+    let pool_sizes: Vec<usize> = if a.thorough && !light { (1..=16).chain([32, 48]).collect() } else if light { vec![2, 3, 4, 8, 16] } else { vec![2, 3, 4, 8, 16, 32, 48] };
     let reps = if light { 2 } else if a.thorough { 12 } else { 4 };
     let mut pools: BTreeMap<usize, rayon::ThreadPool> = BTreeMap::new();
     for k in pool_sizes.iter().chain([1usize].iter()) {
